@@ -497,10 +497,27 @@ fn server_cli_case(case: &mut Case, base: &std::path::Path) -> CaseResult {
             for d in f.iter_mut() {
                 if let MTsDef::Type(t) = d {
                     if t.kind == Kind::Scalar {
-                        t.directives.push(MDirective {
-                            name: "nitrogql_ts_type".into(),
-                            args: ["resolverInput", "resolverOutput", "operationInput", "operationOutput"].iter().map(|k| (k.to_string(), MValue::Str("string".into()))).collect(),
-                        });
+                        // the nitrogql-only directive sits among other applications (their order must survive its
+                        // removal): `@specifiedBy` and, where the schema allows it, `@tag` twice
+                        // (the scalar may carry @specifiedBy in an extension in another file: the merged model knows)
+                        let has_spec = t.directives.iter().any(|d| d.name == "specifiedBy")
+                            || gp.gs.schema.types.get(&t.name).map(|m| m.directives.iter().any(|d| d.name == "specifiedBy")).unwrap_or(false);
+                        if !has_spec {
+                            t.directives.push(MDirective { name: "specifiedBy".into(), args: vec![("url".into(), MValue::Str("https://example.com/a".into()))] });
+                        }
+                        if gp.gs.schema.directives.get("tag").map(|d| d.locations.iter().any(|l| l == "SCALAR")).unwrap_or(false) {
+                            for n in ["first", "second"] {
+                                t.directives.push(MDirective { name: "tag".into(), args: vec![("name".into(), MValue::Str(n.into()))] });
+                            }
+                        }
+                        let at = case.ch.below(t.directives.len() + 1);
+                        t.directives.insert(
+                            at,
+                            MDirective {
+                                name: "nitrogql_ts_type".into(),
+                                args: ["resolverInput", "resolverOutput", "operationInput", "operationOutput"].iter().map(|k| (k.to_string(), MValue::Str("string".into()))).collect(),
+                            },
+                        );
                         with_directive = false;
                         case.label("nitrogql-directive-stripped");
                         break;
